@@ -262,6 +262,11 @@ func (h *harness) genCase(r *rng, name, stream string, nops int) *Case {
 	if flavour == 1 && npool < 40 && r.chance(60) {
 		npool = 40 + r.intn(60)
 	}
+	if h.prop == "C06" && r.chance(40) {
+		// few keys: segments whose records are all dead when compaction gets to them
+		npool = 2 + r.intn(5)
+		flavour = 0
+	}
 	if h.prop == "C15" && r.chance(50) {
 		// few keys, overwritten and deleted over and over: segments whose records are all dead
 		npool = 2 + r.intn(5)
@@ -317,6 +322,43 @@ func (h *harness) genCase(r *rng, name, stream string, nops int) *Case {
 			case 8:
 				c.Ops = append(c.Ops, Op{Kind: "compact"})
 			}
+		}
+		return c
+	}
+	if h.prop == "C02" && r.chance(50) {
+		// one long chain whose bucket is split (overflow buckets freed), then many short sessions that
+		// delete a key elsewhere and add one key to the chain: the key count stays the same while
+		// overflow buckets are taken from the free list - the persisted free list must follow
+		c.Cfg.MaxSeg = 65536
+		chain := keyPool(r, c.Cfg.HashSeed, 125, 1)
+		spread := keyPool(r, c.Cfg.HashSeed, 110, 0)
+		c.Pool = append(append([][]byte{}, chain...), spread...)
+		nfill := 60 + r.intn(32)
+		if nfill > len(chain) {
+			nfill = len(chain)
+		}
+		for i := 0; i < nfill; i++ {
+			c.Ops = append(c.Ops, Op{Kind: "put", K: chain[i], V: patternBytes(r.intn(4), byte(i))})
+		}
+		for _, k := range spread {
+			c.Ops = append(c.Ops, Op{Kind: "put", K: k, V: patternBytes(r.intn(3), 1)})
+		}
+		c.Ops = append(c.Ops, Op{Kind: "reopen"})
+		next, sp := nfill, 0
+		for next < len(chain) && sp < len(spread) {
+			n := 1
+			if r.chance(25) {
+				n = 2
+			}
+			for j := 0; j < n && next < len(chain) && sp < len(spread); j++ {
+				c.Ops = append(c.Ops, Op{Kind: "del", K: spread[sp]}, Op{Kind: "put", K: chain[next], V: patternBytes(r.intn(4), byte(next))})
+				sp++
+				next++
+			}
+			if r.chance(20) {
+				c.Ops = append(c.Ops, Op{Kind: "put", K: chain[r.intn(next)], V: patternBytes(r.intn(4), 7)})
+			}
+			c.Ops = append(c.Ops, Op{Kind: "reopen"}, Op{Kind: "dump"})
 		}
 		return c
 	}
@@ -391,6 +433,17 @@ func (h *harness) genCase(r *rng, name, stream string, nops int) *Case {
 		wReopen, wCrash, wCompact = 10, 1, 6
 	case "C15":
 		wCompact, wReopen, wCrash = 12, 6, 1
+	}
+	if h.prop == "C17" && r.chance(60) {
+		// truncation by recovery, then growth well beyond the truncated size in the same session
+		c.Cfg.MaxSeg = 65536
+		for i, n := 0, 2+r.intn(8); i < n; i++ {
+			k := key()
+			c.Ops = append(c.Ops, Op{Kind: "put", K: k, V: patternBytes(r.intn(30), byte(i))})
+		}
+		c.Ops = append(c.Ops, Op{Kind: "crashreopen"})
+		bk := key()
+		c.Ops = append(c.Ops, Op{Kind: "put", K: bk, V: patternBytes(1500+r.intn(1500), 'G')}, Op{Kind: "get", K: bk}, Op{Kind: "get", K: key()})
 	}
 	if stream != "ploss" && r.chance(25) {
 		// Open followed by Close with no writes at all
@@ -482,6 +535,11 @@ func (h *harness) genCase(r *rng, name, stream string, nops int) *Case {
 				o := Op{Kind: "backup"}
 				for j, n := 0, r.intn(6); j < n; j++ {
 					u := SubOp{At: r.intn(6), K: key()}
+					if r.chance(15) {
+						u.Kind = "compact"
+						o.Sub = append(o.Sub, u)
+						continue
+					}
 					if r.chance(65) {
 						u.Kind = "put"
 						u.V = val(u.K)
@@ -890,6 +948,12 @@ func (s *session) crashTorn(o Op, hdr bool) {
 
 func (s *session) userOp(u SubOp) {
 	h := s.h
+	if u.Kind == "compact" {
+		// a maintenance task started while another one runs must be refused
+		_, err := s.db.Compact()
+		h.emit("bcompact %s", errStr(err))
+		return
+	}
 	if u.Kind == "put" {
 		err := s.db.Put(append([]byte(nil), u.K...), append([]byte(nil), u.V...))
 		h.emit("put %s %s %s", hx(u.K), hx(u.V), errStr(err))
